@@ -23,6 +23,38 @@ theorem C02_how : ∀ h ∈ spellings,
     (specKindOf h).map (fun k => (specKindWithOn k).jt) = some (joinTypeFor false h) ∧
     normaliseHow false h = (specKindOf h).map specKindWithOn := by decide
 
+/-- the documented spellings are read by the specification as documented -/
+theorem C02_spec_table : ∀ p ∈ specKindTable, specKindOf p.1 = some p.2 := by decide
+
+/-- **every string.** Whatever string PySpark accepts as `how` — any mix of upper and lower case, underscores anywhere
+    (`'LeftSemi'`, `'RIGHT'`, `'Left_Outer'`, `'FULL_outer'`, …), not only the 18 documented spellings — `join` (with a
+    condition) turns into the join-type string of the join PySpark performs.  `preHow` is regenerated from the first
+    statement of `join`; without it this fails for `'LeftSemi'` (see `fixed:` entry 2f40f15). -/
+theorem C02_how_all (h : String) (k : JoinKind) (hk : specKindOf h = some k) :
+    joinTypeFor false h = (specKindWithOn k).jt ∧ normaliseHow false h = some (specKindWithOn k) := by
+  have hpre : preHow h = specCanon h := rfl
+  have key : ∀ p ∈ specKindCanon,
+      joinTypeOf (rewriteArgsCore false p.1).2 = (specKindWithOn p.2).jt ∧
+      kindOfJoinType (joinTypeOf (rewriteArgsCore false p.1).2) = some (specKindWithOn p.2) := by decide
+  unfold specKindOf at hk
+  cases hf : specKindCanon.find? (·.1 = specCanon h) with
+  | none => rw [hf] at hk; simp at hk
+  | some p =>
+    rw [hf] at hk
+    have hp2 : p.2 = k := by simpa using hk
+    have hmem := List.mem_of_find?_eq_some hf
+    have hp1 : p.1 = specCanon h := by simpa using List.find?_some hf
+    have := key p hmem
+    unfold normaliseHow joinTypeFor rewriteHow rewriteArgs
+    rw [hpre, ← hp1, ← hp2]
+    exact this
+
+/-- PySpark rejects exactly the strings whose canonical form is not one of the 13 names; non-vacuity of `C02_how_all`
+    on spellings outside the documented table -/
+example : specKindOf "LeftSemi" = some .leftSemi ∧ specKindOf "RIGHT" = some .rightOuter ∧
+    specKindOf "Left_Outer" = some .leftOuter ∧ specKindOf "FULL_outer" = some .fullOuter ∧
+    specKindOf "l_e_f_t" = some .leftOuter ∧ specKindOf "left outer" = none := by decide
+
 theorem C02_jt_kind : ∀ k : JoinKind, kindOfJoinType k.jt = some k := by intro k; cases k <;> rfl
 
 /-- `crossJoin` is a join with no condition whose type the engine reads as CROSS -/
